@@ -35,13 +35,13 @@ hooks_commits = subprocess.run(["git", "-C", "/repo", "log", "--format=%H", "--g
 m = {
  "version": 1,
  "setup_cmd": "./check build --race",
- "hooks": {"guard": "verif", "enable": "checks build the simulator with `GOTOOLCHAIN=local go1.26.8 test -c -tags \"sqlite verif\"` in /verif/sim, which reaches /repo through a replace directive (so /repo's working tree is rebuilt on every check)",
+ "hooks": {"guard": "verif", "enable": "checks build the simulator with `GOTOOLCHAIN=local go1.26.8 test -c -tags \"sqlite verif\"` in /verif/sim, which reaches /repo through a replace directive (so /repo's working tree is rebuilt on every check). The lock seam needs no hook in /repo: tools/lockyield rewrites the mutex operations of /repo/internal (and of a scratch copy of pop's SQLite dialect file) into a build overlay under /verif/bin on every build; the tree itself is not modified",
            "baseline_off_cmd": "cd /repo && go test -vet=off -count=1 -timeout 25m ./...", "source_commits": hooks_commits, "add_only": True},
  "engines": [{"name": "keto-sim", "path": "/verif/sim", "serves_properties": claimed,
               "kind_free_text": "deterministic simulation with fault injection: one seeded tape decides generated workloads, the release order of storage calls parked at the storage-API seam inside a testing/synctest bubble, storage order (uuid seam), and injected faults at the storage-API and SQL-driver seams; reference models (Zanzibar evaluator, multiset store, reachability, namespace versions) are the oracles; failures are minimised on the tape and written as replay files"}],
  "checks": checks,
  "not_applicable": na,
- "notes": "Driver: /verif/check (python3). Workers run with GOMAXPROCS=1 (required for replayable schedules, see DESIGN.md section 7). Known findings: /verif/known_findings.json. Fix commits in /repo start with 'fix:'.",
+ "notes": "Driver: /verif/check (python3). Workers run with GOMAXPROCS=1 (required for replayable schedules, see DESIGN.md section 7). Known findings: /verif/known_findings.json. Fix commits in /repo start with 'fix:'. Which seeded change is caught by which check: SENSITIVITY.md (generated from seeded/*/meta.json).",
 }
 json.dump(m, open(os.path.join(ROOT, "MANIFEST.json"), "w"), indent=1)
 print("claimed:", claimed)
